@@ -203,7 +203,7 @@ func Run(cfg fw.Config, rec *fw.Rec) {
 	rec.SetExtra("clean_probe_report", clean)
 
 	// (b) polluter sequences then probe
-	nseq := cfg.Pick(600, 8000)
+	nseq := cfg.Pick(600, 60000)
 	fw.Parallel(cfg.Workers, nseq, func(w, i int) {
 		r := cfg.Rng("c10-seq", i)
 		var seq []string
@@ -250,7 +250,7 @@ func Run(cfg fw.Config, rec *fw.Rec) {
 	}
 
 	// (c) concurrency: one compiled source, private bindings per goroutine, shared props
-	rounds := cfg.Pick(12, 60)
+	rounds := cfg.Pick(12, 200)
 	for round := 0; round < rounds; round++ {
 		G := []int{16, 32, 64}[round%3]
 		sharedProps := mkProps()
